@@ -85,6 +85,11 @@ type Ctx struct {
 	hdrPending []byte
 	hdrFields  int
 	hdrRegular bool
+	// hdrStatus is the :status of the block being received (0: none yet), and
+	// hdrBlocks counts the final-response header blocks already completed: the
+	// first must carry exactly one :status, a later one (the trailers) none.
+	hdrStatus int
+	hdrBlocks int
 }
 
 // acquire takes ownership of the Ctx for the connection. It reports false once
@@ -217,6 +222,8 @@ func acquireCtx(req *fasthttp.Request, res *fasthttp.Response) *Ctx {
 	ctx.hdrPending = ctx.hdrPending[:0]
 	ctx.hdrFields = 0
 	ctx.hdrRegular = false
+	ctx.hdrStatus = 0
+	ctx.hdrBlocks = 0
 
 	ctx.conn.Store(nil)
 
